@@ -44,6 +44,7 @@ struct world
     std::optional<pika::thread> th[5];
     std::optional<pika::jthread> jt[5];
     std::unique_ptr<pika::counting_semaphore<>> sem[5];
+    std::unique_ptr<pika::counting_semaphore<>> sem2[5];
     std::atomic<int> body_done[5];
     std::atomic<int> cb_accepted[5];
 };
@@ -121,6 +122,37 @@ static void body(world* w, int h, hdesc d, pika::stop_token st)
             throw;
         }
         ret(a, 0);    // woken without an interruption: not explainable
+        break;
+    }
+    case 7:
+    {
+        // interrupted while blocked, handles the interruption, then blocks again on something that IS
+        // released: the thread must be woken a second time and finish
+        int a = 4 + h;
+        call(a, "block", h);
+        bool interrupted = false;
+        try
+        {
+            w->sem[h]->acquire();
+        }
+        catch (pika::thread_interrupted const&)
+        {
+            interrupted = true;
+        }
+        ret(a, interrupted ? 1 : 0);
+        call(a, "acq", h);
+        try
+        {
+            w->sem2[h]->acquire();
+            ret(a, 1);
+        }
+        catch (pika::exception const& e)
+        {
+            // known finding: the wake-up of the interruption that was already delivered (and handled) above
+            // can arrive late and abort THIS wait with yield_aborted; left uncaught it would take the worker
+            // thread down with it
+            ret(a, e.get_error() == pika::error::yield_aborted ? -3 : -9);
+        }
         break;
     }
     case 3:
@@ -240,16 +272,16 @@ int main(int argc, char** argv)
         {
             hdesc& d = ds[h];
             d.jthread = R.chance(1, 3);
-            d.body = (int) R.below(7);
+            d.body = (int) R.below(8);
             if (d.body == 3 && !d.jthread) d.body = 1;
-            if (d.body == 6 && d.jthread) d.body = 1;
+            if ((d.body == 6 || d.body == 7) && d.jthread) d.body = 1;
             d.yields = 1 + (int) R.below(4);
             d.pre_join_yields = (int) R.below(5);
             d.interrupt = (d.body == 1 || d.body == 5) && R.chance(1, 2);
             d.interrupt_after = (int) R.below(3);
-            if (d.body == 6)
+            if (d.body == 6 || d.body == 7)
             {
-                d.interrupt = true;    // the only thing that ends the body
+                d.interrupt = true;    // the only thing that ends the (first) wait
                 d.interrupt_after = (int) R.below(6);
             }
             d.user_cb = R.chance(1, 6);
@@ -257,7 +289,7 @@ int main(int argc, char** argv)
             if (d.end == 3 && !d.jthread) d.end = 0;
             if (d.body == 3) d.end = 3;                      // only destruction stops it
             if (d.body == 2 && d.end == 1) d.end = 0;
-            if (d.body == 6) d.end = R.chance(1, 2) ? 0 : 4;
+            if (d.body == 6 || d.body == 7) d.end = R.chance(1, 2) ? 0 : 4;
             d.join_spin = 0;
             if (!d.jthread && R.chance(2, 5))
             {
@@ -271,6 +303,7 @@ int main(int argc, char** argv)
                 d.join_spin = (int) R.below(12000);
             }
             w->sem[h] = std::make_unique<pika::counting_semaphore<>>(0);
+            w->sem2[h] = std::make_unique<pika::counting_semaphore<>>(0);
             w->body_done[h] = 0;
             w->cb_accepted[h] = 0;
             g_cb_ran[h] = 0;
@@ -319,6 +352,13 @@ int main(int argc, char** argv)
                 {
                     for (int i = 0; i < (int) d.pre_join_yields / 2; ++i) pika::this_thread::yield();
                     w->sem[h]->release();
+                }
+                if (d.body == 7)
+                {
+                    for (int i = 0; i < 1 + d.pre_join_yields; ++i) pika::this_thread::yield();
+                    call(a, "release", h);
+                    w->sem2[h]->release();
+                    ret(a, 1);
                 }
                 for (int i = 0; i < d.pre_join_yields; ++i) pika::this_thread::yield();
                 for (int i = 0; i < d.join_spin; ++i) asm volatile("" ::: "memory");
